@@ -261,3 +261,98 @@ func (u *Unit) StoresToField(fn *ssa.Function, typeName, name string) []*ssa.Sto
 	})
 	return out
 }
+
+// ReturnValue resolves result i of a return: when the function spills its
+// results to allocs (defer present), the value is the last store to that
+// alloc in the returning block.
+func ReturnValue(ret *ssa.Return, i int) ssa.Value {
+	v := ret.Results[i]
+	ld, ok := v.(*ssa.UnOp)
+	if !ok || ld.Op != token.MUL {
+		return v
+	}
+	al, ok := ld.X.(*ssa.Alloc)
+	if !ok {
+		return v
+	}
+	// search backwards from the load through single-predecessor chains
+	b := ld.Block()
+	idx := instrIndex(ld)
+	for hops := 0; hops < 8 && b != nil; hops++ {
+		for j := idx - 1; j >= 0; j-- {
+			if s, ok := b.Instrs[j].(*ssa.Store); ok && s.Addr == ssa.Value(al) {
+				return s.Val
+			}
+		}
+		if len(b.Preds) != 1 {
+			break
+		}
+		b = b.Preds[0]
+		idx = len(b.Instrs)
+	}
+	return v
+}
+
+// InRecoverBlock reports whether in belongs to the function's synthetic
+// recover block (reached only when a deferred call recovered a panic).
+func InRecoverBlock(in ssa.Instruction) bool {
+	fn := in.Parent()
+	return fn != nil && fn.Recover != nil && in.Block() == fn.Recover
+}
+
+// DefinitelyNonNilStore: the stored value is provably non-nil — the address
+// of a fresh composite, or a value tested != nil by a dominating guard.
+func DefinitelyNonNilStore(s *ssa.Store) bool {
+	v := s.Val
+	v0 := v
+	if mi, ok := v.(*ssa.MakeInterface); ok {
+		v0 = mi.X
+	}
+	if _, ok := v0.(*ssa.Alloc); ok {
+		return true
+	}
+	// result of a constructor whose every return is a fresh composite
+	if call, ok := v0.(*ssa.Call); ok {
+		if f, ok := call.Call.Value.(*ssa.Function); ok && f.Blocks != nil {
+			allFresh := true
+			Instrs(f, func(in ssa.Instruction) {
+				if ret, ok := in.(*ssa.Return); ok {
+					if len(ret.Results) != 1 {
+						allFresh = false
+					} else if _, isAlloc := ret.Results[0].(*ssa.Alloc); !isAlloc {
+						allFresh = false
+					}
+				}
+			})
+			if allFresh {
+				return true
+			}
+		}
+	}
+	for _, g := range GuardsAt(s.Block()) {
+		if x, isNil, ok := nilCompare(g); ok && !isNil && (x == v || x == v0 || sameLocalLoad(x, v) || sameLocalLoad(x, v0)) {
+			return true
+		}
+	}
+	return false
+}
+
+// sameLocalLoad: a and b are loads of the same local variable cell with no
+// direct store to it between them (a dominates b).
+func sameLocalLoad(a, b ssa.Value) bool {
+	la, ok1 := a.(*ssa.UnOp)
+	lb, ok2 := b.(*ssa.UnOp)
+	if !ok1 || !ok2 || la.Op != token.MUL || lb.Op != token.MUL || la.X != lb.X {
+		return false
+	}
+	al, ok := la.X.(*ssa.Alloc)
+	if !ok || !Dominates(la, lb) {
+		return false
+	}
+	for _, ref := range *al.Referrers() {
+		if st, ok := ref.(*ssa.Store); ok && st.Addr == ssa.Value(al) && Dominates(la, st) && Dominates(st, lb) {
+			return false
+		}
+	}
+	return true
+}
